@@ -52,9 +52,15 @@ Env == <<
   [n |-> "A$$B",   kind |-> "type", ty |-> O1("d", TNumber)],
   [n |-> "HN",     kind |-> "type", ty |-> O2("p", Ref("toString"), "q", Ref("A$$B"))],
   \* documented references to a named type (the description belongs to the referring site, not to the definition)
-  [n |-> "HJ",     kind |-> "type", ty |-> O2("home", Deco("jsdoc", Ref("VB")), "work", Deco("jsdoc", Ref("VB")))]
+  [n |-> "HJ",     kind |-> "type", ty |-> O2("home", Deco("jsdoc", Ref("VB")), "work", Deco("jsdoc", Ref("VB")))],
+  \* unions of inline variants (their definitions get generated names) that differ only in a JSDoc, and only in
+  \* true / "true" (one 32-bit hash): what one of them stores must not be taken for the other's
+  [n |-> "InDocA", kind |-> "type", ty |-> Uni(<<O2("k", LS("dp"), "p", Deco("jsdoc", TNumber)), O2("k", LS("dq"), "q", TString)>>)],
+  [n |-> "InDocB", kind |-> "type", ty |-> Uni(<<O2("k", LS("dp"), "p", TNumber), O2("k", LS("dq"), "q", TString)>>)],
+  [n |-> "InFlagA", kind |-> "type", ty |-> Uni(<<O2("k", LS("fa"), "flag", LB(TRUE)), O2("k", LS("fb"), "q", TString)>>)],
+  [n |-> "InFlagB", kind |-> "type", ty |-> Uni(<<O2("k", LS("fa"), "flag", LS("true")), O2("k", LS("fb"), "q", TString)>>)]
 >>
-Parsers == {"Tree", "A", "B", "U", "Holder", "Inline", "VA", "Bad", "P2", "VD", "UD", "InlineD", "HD", "VB", "A2", "PB2", "HN", "HJ"}
+Parsers == {"Tree", "A", "B", "U", "Holder", "Inline", "VA", "Bad", "P2", "VD", "UD", "InlineD", "HD", "VB", "A2", "PB2", "HN", "HJ", "InDocA", "InDocB", "InFlagA", "InFlagB"}
 \* configuration with namedTypeSchemaOverrides: VA is printed as VAo
 Overrides == [VA |-> "VAo"]
 Names == {Env[i].n : i \in DOMAIN Env}
@@ -73,7 +79,7 @@ IsDisc(T) ==
                         : i \in DOMAIN T.ms }) > 1
 
 \* sorted order of the discriminator values used in the project (TLC cannot compare strings)
-LitOrder == <<"a", "b", "d", "dd", "p", "q", "x", "y">>
+LitOrder == <<"a", "b", "d", "dd", "dp", "dq", "fa", "fb", "p", "q", "x", "y">>
 DiscRank(m) == LET o == Resolve(m)
                    lits == {o.ps[j].ty.v.s : j \in {j \in DOMAIN o.ps : o.ps[j].key \in {"k", "kind"} /\ o.ps[j].ty.t = "lit"}}
                IN CHOOSE i \in DOMAIN LitOrder : LitOrder[i] \in lits
@@ -99,7 +105,7 @@ Visit(T, st, useOv, ovs) ==
                       \* deviation "throwLeavesInProgress": the mark stays
                       IF "throwLeavesInProgress" \in Deviations THEN st1 ELSE St(st1.col, st1.prog \ {T.n}, TRUE)
                  ELSE Store(st1, T.n, IF ov THEN "override" ELSE "own")
-    [] T.t = "prim" -> IF T.p \in {"Date", "bigint"} THEN St(st.col, st.prog, TRUE) ELSE st
+    [] T.t = "prim" -> IF T.p \in {"Date", "bigint", "function"} THEN St(st.col, st.prog, TRUE) ELSE st
     [] T.t \in {"map", "set", "ta"} -> St(st.col, st.prog, TRUE)
     [] T.t = "union" ->
          IF IsDisc(T)
